@@ -2,4 +2,4 @@ From Coq Require Import Extraction ExtrOcamlBasic ZArith List.
 From C08 Require Import Model.
 From C08.gen Require Import Facts.
 Extraction "Model.ml" init step exec_op model_table gen_table gen_rc use_count is_alive handle_ptr handle_eq handle_ne
-  failing_meths check rc_ok meth_ok s_heap err log legal all_meths.
+  failing_meths check rc_ok meth_ok s_heap err log legal all_meths exec_op_s gen_sel gen_members gen_cmp.
